@@ -1274,6 +1274,171 @@ def check(ctx):
                 u.register_buffer("spot", spot0.clone())
                 if var0 is not None:
                     u.register_buffer("variance", var0.clone())
+    # (j) derivatives that carry FURTHER REGISTERED UNDERLIERS (round 8).  register_underlier(name, primary) / `derivative.name = primary`
+    #   is the public way to attach a second instrument (a benchmark, a hedging instrument, a volatility proxy) to a derivative, and a
+    #   user-defined option subclass may register one in its constructor.  The option's payoff, strike and state remain those of
+    #   derivative.underlier: the module built from the derivative must quote the functional form at the state of THAT instrument —
+    #   spot, running maximum, remaining steps * dt AND volatility, all formed here from copies of the buffers of derivative.underlier —
+    #   whatever the name of the other instrument (sorting before / after "underlier", upper case, underscore), its class (a
+    #   BrownianStock with another sigma and dt, HestonStock, MertonJumpStock), the way (register_underlier / attribute assignment /
+    #   subclass constructor) and the moment it was registered (before simulate: simulated along with the derivative; after simulate:
+    #   not simulated at all, or simulated on its own with another number of paths and horizon; registered and the derivative simulated
+    #   again).  derivative.ul(), documented as the alias of derivative.underlier, must be that object.  Every call also goes to the
+    #   model of the resolution layer (op bs_module: the market is the own underlier's), the European kinds to the integrated expected
+    #   payoff at the first step.  Option type x name position corpus on every tier and seed (moment / way / class rotate over it).
+    def fits_state(x, shape):
+        try:
+            return tuple(torch.broadcast_shapes(tuple(x.shape), shape)) == tuple(shape)
+        except RuntimeError:
+            return False
+
+    NAMES_J = {"before": ["benchmark", "hedge", "a_stock", "Z", "_ref", "underlie", "Underlier"], "after": ["vol_proxy", "z_other", "underlier2", "underlying"]}
+    WHEN_J = ["before_simulate", "after_simulate:not_simulated", "after_simulate:simulated_on_its_own", "after_simulate:derivative_simulated_again"]
+    WAY_J = ["register_underlier", "setattr", "subclass"]
+    OTHER_J = ["BrownianStock", "HestonStock", "MertonJumpStock"]
+    scen_j = [(o_, pos_, WHEN_J[(2 * i_ + j_) % 4], WAY_J[(i_ + 2 * j_) % 3], OTHER_J[(i_ + j_) % 3], "BrownianStock")
+              for i_, o_ in enumerate(OPTION_TYPES) for j_, pos_ in enumerate(("before", "after"))]
+    scen_j += [(g.choice(OPTION_TYPES), g.choice(["before", "before", "after"]), g.choice(WHEN_J), g.choice(WAY_J), g.choice(OTHER_J),
+                g.choice(["BrownianStock", "BrownianStock", "HestonStock"])) for _ in range(4 if q_ else 80)]
+    for i_j, (option, pos, when, way, other_cls, primary) in enumerate(scen_j):
+        pd = option in ("LookbackOption", "AmericanBinaryOption")
+        call = True if pd else g.chance(0.5)
+        name = g.choice(NAMES_J[pos])
+        K = g.choice([0.9, 1.0, 1.05, 1.1, 1.25])
+        sigma = g.choice([0.1, 0.2, 0.3])
+        sigma2 = g.choice([0.45, 0.6, 0.8, 0.05])
+        dt, steps, n_paths = g.choice([1 / 50, 1 / 250, 1 / 100]), g.choice([3, 4, 6]), g.choice([1, 2, 3])
+        dt2 = g.choice([dt, dt, 1 / 64, 1 / 365])
+        if way == "subclass":     # a user-defined option whose constructor registers the second instrument
+            when = "before_simulate"
+        n_paths2, horizon2 = n_paths + g.choice([0, 1, 2]), (steps + g.choice([0, 2, 5])) * dt2
+        for _try in range(8):       # fresh objects per attempt: the simulated state must lie inside the property's box
+            u = pin.HestonStock(dt=dt, dtype=torch.float64) if primary == "HestonStock" else pin.BrownianStock(sigma=sigma, dt=dt, dtype=torch.float64)
+            other = pin.HestonStock(theta=0.25, dt=dt2, dtype=torch.float64) if other_cls == "HestonStock" \
+                else getattr(pin, other_cls)(sigma=sigma2, dt=dt2, dtype=torch.float64)
+            tseed = g.randint(0, 2 ** 31 - 1)
+            torch.manual_seed(tseed)
+            if way == "subclass":
+
+                class TwoUnderliers(getattr(pin, option)):
+                    def __init__(self, underlier, second, second_name, **kw):
+                        super().__init__(underlier, **kw)
+                        self.register_underlier(second_name, second)
+
+                d = TwoUnderliers(u, other, name, call=call, strike=K, maturity=steps * dt)
+                d.simulate(n_paths=n_paths)
+            else:
+                d = getattr(pin, option)(u, call=call, strike=K, maturity=steps * dt)
+                if when != "before_simulate":
+                    d.simulate(n_paths=n_paths)
+                if way == "register_underlier":
+                    d.register_underlier(name, other)
+                else:
+                    setattr(d, name, other)
+                if when == "before_simulate" or when == "after_simulate:derivative_simulated_again":
+                    d.simulate(n_paths=n_paths)
+                elif when == "after_simulate:simulated_on_its_own":
+                    other.simulate(n_paths=n_paths2, time_horizon=horizon2)
+            spot = u.spot.detach().clone()
+            vol = u.variance.detach().clamp(min=0.0).sqrt() if primary == "HestonStock" else torch.full_like(spot, sigma)
+            if bool(((spot / K).log().abs() <= 1.0).all()) and bool((vol > 0).all()) and bool((vol <= 2.0).all()):
+                break
+        else:
+            raise InternalError(f"scenario construction: no simulated state of {primary} inside the box")
+        N, T = spot.shape
+        state = derivative_state(torch, spot, vol, K, dt)
+        valid = (state["time_to_maturity"] > 0) & (state["volatility"] > 0)
+        try:
+            other_vol = other.volatility.detach()
+            other_vol = {"shape": list(other_vol.shape), "first": float(other_vol.reshape(-1)[0])}
+        except Exception:  # noqa  (not simulated)
+            other_vol = "not simulated"
+        case0 = {"option": option, "primary": primary, "call": call, "strike": K, "dt": dt, "n_paths": N, "torch_seed": tseed,
+                 "further_underlier": {"name": name, "sorts": pos + " 'underlier'", "class": other_cls, "sigma": sigma2 if other_cls != "HestonStock" else None, "dt": dt2,
+                                       "registered": when, "by": way, "volatility": other_vol},
+                 "spot": spot.tolist(), "volatility": vol.tolist()}
+        ctx.stats[f"extra-underlier:{pos}:{when}"] += 1
+        ctx.stats[f"extra-underlier:{way}:{other_cls}"] += 1
+        reg = dict(d._underliers) if hasattr(d, "_underliers") else {}
+        if not (reg.get("underlier") is u and reg.get(name) is other and len(reg) == 2 and d.underlier is u):
+            raise InternalError(f"scenario construction: the derivative's registry is {sorted(reg)}")
+        ctx.case(case0, True, tag="module_extra_underlier")
+        st, first, _ = call_impl(d.ul)
+        if st != "ok" or first is not u:
+            ctx.fail(f"derivative.ul() (documented as the alias of derivative.underlier) is not derivative.underlier once a further instrument is registered "
+                     f"under the name '{name}' ({when}, by {way})", case0, key=f"derivative:{option}:extra-underlier:ul",
+                     detail=first if st != "ok" else {"ul()": repr(first), "underlier": repr(u)})
+        markets = [{"spot": enc_flt(spot[p_].tolist()), "variance": enc_flt((vol[p_] * vol[p_]).tolist()), "volatility": enc_flt(vol[p_].tolist()),
+                    "listed": enc_flt(spot[p_].tolist()), "dt": float_bits(dt), "strike": float_bits(K), "oracle": enc_flt([0.0] * T)}
+                   for p_ in range(N)]
+        names = [n_ for n_ in STATE_NAMES if pd or n_ != "max_log_moneyness"]
+        hows = ("from_derivative",) if way == "subclass" else ("BlackScholes", "from_derivative")   # BlackScholes(...) looks the class name up
+        how_tie = hows[i_j % len(hows)]
+        for how in hows:
+            st, mod, _ = call_impl(build_module, how, option, d)
+            if st != "ok":
+                ctx.fail("building the pricing module from a derivative raised", case0 | {"built": how}, key=f"bs_module:{option}:construct:error", detail=mod)
+                continue
+            if getattr(mod, "strike", None) != K or bool(getattr(mod, "call", None)) != call:
+                ctx.fail("the module built from a derivative with a further registered underlier does not carry the derivative's strike / call flag",
+                         case0 | {"built": how}, key=f"bs_module:{option}:extra-underlier:construct", detail={"strike": getattr(mod, "strike", None), "call": getattr(mod, "call", None)})
+            calls = [("price", {}), ("delta", {})]
+            # a proper subset given explicitly; the volatility is left to the derivative in the first, drawn in the second
+            for leave_vol in (True, False):
+                rest = [n_ for n_ in names if n_ != "volatility"] if leave_vol else names
+                given = sorted(g.r.sample(rest, g.randint(1, len(rest) - (0 if leave_vol else 1))))
+                ov = {}
+                if "time_to_maturity" in given:
+                    ov["time_to_maturity"] = shaped(N, T, "full", 0.01, 5.0)
+                if "volatility" in given:
+                    ov["volatility"] = shaped(N, T, "full", 0.02, 2.0)
+                if "log_moneyness" in given:
+                    ov["log_moneyness"] = (state["max_log_moneyness"] - shaped(N, T, "full", 0.0, 0.5)) if pd and "max_log_moneyness" not in given \
+                        else shaped(N, T, "full", -1.0, 1.0)
+                if "max_log_moneyness" in given:
+                    ov["max_log_moneyness"] = (ov["log_moneyness"] if "log_moneyness" in given else state["log_moneyness"]) + shaped(N, T, "full", 0.0, 0.6)
+                calls.append((g.choice(["price", "price", "delta"]), ov))
+            for what, ov_ in calls:
+                case = case0 | {"built": how, "method": what, "given": {k_: v_.tolist() for k_, v_ in ov_.items()}}
+                ctx.case(case, True, tag="module_extra_underlier")
+                ctx.traces += 1
+                st, got, mut = call_impl(getattr(mod, what), watch=[("derivative", d)], **ov_)
+                if mut:
+                    ctx.mutated(f"BSModule.{what}", mut, case)
+                if how == how_tie:
+                    rst, rres, _ = call_impl(acquire_fn(pd), derivative=getattr(mod, "derivative", None), **ov_)
+                    if rst == "ok" and not all(fits_state(x, (N, T)) for x in rres):
+                        rst, rres = "err", "resolved input of another shape than the derivative's state"   # (reported below by the predicate)
+                    tie.add(case, option, what, "from_derivative", N, T, markets, {"call": call, "simulated": True, "has_vol": True}, None, ov_,
+                            ("ok", getattr(mod, "call", None), getattr(mod, "strike", float("nan"))), (rst, rres), (st, got))
+                if st != "ok":
+                    ctx.fail(f"module.{what}() of a module built from a simulated derivative that carries a further registered underlier ('{name}', {when}) raised",
+                             case, key=f"bs_module:{option}:extra-underlier:error", detail=got)
+                    continue
+                st_ = state | ov_
+                exp = functional_at(torch, option, what, st_, K, call)
+                ok_ = torch.broadcast_to((st_["time_to_maturity"] > 0) & (st_["volatility"] > 0), (N, T))
+                compare_grid(ctx, got, exp, ok_, case, f"bs_module:{option}:extra-underlier:{'partial-override' if ov_ else what}",
+                             f"module.{what}() of a module built from a derivative on which a further instrument is registered (name '{name}' sorting {pos} "
+                             f"'underlier', {other_cls}, {when}, by {way}) differs from the functional form at the "
+                             + ("given inputs and the remaining state" if ov_ else "state")
+                             + " of derivative.underlier (spot, running maximum, remaining steps * dt and ITS volatility): the quote mixes in the other instrument")
+                if what == "price" and not ov_ and how == how_tie and not pd and tuple(got.shape) == (N, T) and bool(valid[0, 0]) \
+                        and float(state["time_to_maturity"][0, 0]) <= 3.0 and float(vol[0, 0]) >= 0.05:
+                    s0, t0, v0 = float(state["log_moneyness"][0, 0]), float(state["time_to_maturity"][0, 0]), float(vol[0, 0])
+                    try:
+                        if option == "EuropeanOption":
+                            exp0 = expectation_terminal((lambda S: max(S - K, 0.0)) if call else (lambda S: max(K - S, 0.0)), s0, t0, v0, K)
+                        else:
+                            exp0 = expectation_terminal((lambda S: 1.0 if S >= K else 0.0) if call else (lambda S: 1.0 if S <= K else 0.0), s0, t0, v0, K)
+                    except Exception as e:  # noqa
+                        raise InternalError("expectation oracle failed: " + repr(e))
+                    ctx.stats[f"oracle:extra-underlier:{option}"] += 1
+                    if abs(float(got[0, 0]) - exp0) > 2e-6 * max(1.0, K):
+                        ctx.fail("the price quoted by the module built from a derivative with a further registered underlier differs from the numerically "
+                                 "integrated expected payoff under the volatility of the option's own underlier, from the state at the first step",
+                                 case | {"s": s0, "t": t0, "v": v0}, key=f"bs_module:{option}:extra-underlier:expectation",
+                                 detail={"module": float(got[0, 0]), "integral": exp0})
     try:
         mv3 = model_vals(ctx, items3)
     except DriverBroken as e:
@@ -1301,7 +1466,11 @@ def check(ctx):
              "bitwise against the Python bool, the model and the functional form; results of the derivative's accessors (moneyness / log_moneyness / max_moneyness / "
              "max_log_moneyness / time_to_maturity with time_step None and given, log False / True; underlier.volatility; own derivative or a sibling on the same underlier; "
              "strike exactly 1.0 and other strikes) modified in place by the caller, then the module built from the derivative against the functional form at copies of the "
-             "simulated buffers taken before and the model of the resolution layer; numerical-integration oracle on a subsample; "
+             "simulated buffers taken before and the model of the resolution layer; derivatives carrying a FURTHER REGISTERED UNDERLIER (name sorting before / after "
+             "'underlier'; BrownianStock with another sigma and dt / HestonStock / MertonJumpStock; by register_underlier / attribute assignment / a user subclass's constructor; "
+             "before simulate, after simulate unsimulated / simulated on its own / derivative simulated again; every option type x name position on every tier): ul() is "
+             "derivative.underlier, the module built from the derivative (no inputs, proper subsets given) against the functional form at the state AND volatility of "
+             "derivative.underlier, the integrated expected payoff (European kinds) and the model of the resolution layer; numerical-integration oracle on a subsample; "
              "every case non-trivial; distinct = sha1 of canonical case",
         explanation="European and European-binary prices: equality with the defining expectation is a theorem (Props/C07). American binary and lookback: "
                     "the expectation identity is NOT proved (no Brownian-motion/reflection principle in Mathlib) — partial; validated numerically by the "
